@@ -1106,3 +1106,503 @@ func init() {
 			}
 		}})
 }
+
+func init() {
+	register(&Rule{ID: "SH-MODSTAMP", Floor: 5,
+		Doc: "premise (checked per store): the store-wide pass skips a repository on a comparison of a time field of the repository with the start of the window; hence every operation that adds a blob to a repository or changes its index stores to that field — in the same function or in what it calls (incl. deferred calls, callbacks and goroutines, resolved through the call graph) — otherwise content that became garbage in a repository nobody touches again is never visited by a pass",
+		Run: func(c *core.Ctx) {
+			r := requireRoles(c)
+			if r == nil {
+				return
+			}
+			for _, fam := range r.Families {
+				// premise: the skip test in the pass loop
+				stampField := ""
+				for _, fn := range c.P.Funcs("internal/store") {
+					if fn.Signature.Recv() == nil || an.NamedOf(fn.Signature.Recv().Type()) != fam.Store {
+						continue
+					}
+					callsGC := false
+					an.Calls(fn, func(call ssa.CallInstruction) {
+						if callee := call.Common().StaticCallee(); callee != nil && callee.Signature.Recv() != nil && an.NamedOf(callee.Signature.Recv().Type()) == fam.Repo && callee.Name() == "gc" && loopHeader(call.Block()) != nil {
+							callsGC = true
+						}
+					})
+					if !callsGC {
+						continue
+					}
+					an.Calls(fn, func(call ssa.CallInstruction) {
+						if !an.IsMethod(call, "time", "Time", "Before") && !an.IsMethod(call, "time", "Time", "After") {
+							return
+						}
+						for _, a := range call.Common().Args {
+							root, p := accessPath(an.Strip(a))
+							if len(p) == 1 && root != nil && an.NamedOf(an.Deref(root.Type())) == fam.Repo {
+								stampField = p[0]
+							}
+						}
+					})
+				}
+				if stampField == "" {
+					c.Pass("premise:"+fam.Name, token.NoPos, "the %s store's pass does not skip repositories on a modification stamp: nothing to keep fresh", fam.Name)
+					continue
+				}
+				isStampStore := func(in ssa.Instruction) bool {
+					st, ok := in.(*ssa.Store)
+					if !ok {
+						return false
+					}
+					fa, ok := st.Addr.(*ssa.FieldAddr)
+					if !ok || an.NamedOf(an.Deref(fa.X.Type())) != fam.Repo {
+						return false
+					}
+					return an.Deref(fa.X.Type()).Underlying().(*types.Struct).Field(fa.Field).Name() == stampField
+				}
+				var stamps func(fn *ssa.Function, depth int, seen map[*ssa.Function]bool) bool
+				stamps = func(fn *ssa.Function, depth int, seen map[*ssa.Function]bool) bool {
+					if fn == nil || seen[fn] || depth > 6 || len(fn.Blocks) == 0 {
+						return false
+					}
+					seen[fn] = true
+					found := false
+					an.Instrs(fn, func(in ssa.Instruction) {
+						if isStampStore(in) {
+							found = true
+						}
+					})
+					if found {
+						return true
+					}
+					for _, b := range fn.Blocks {
+						for _, in := range b.Instrs {
+							switch x := in.(type) {
+							case ssa.CallInstruction:
+								for _, callee := range c.P.Callees(x) {
+									if core.FuncPkgPath(callee) != "" && strings.HasPrefix(core.FuncPkgPath(callee), c.P.Module) && stamps(callee, depth+1, seen) {
+										return true
+									}
+								}
+							case *ssa.MakeClosure:
+								if cf, ok := x.Fn.(*ssa.Function); ok && stamps(cf, depth+1, seen) {
+									return true
+								}
+							}
+						}
+					}
+					return false
+				}
+				// content-changing operations in the family's functions
+				type op struct {
+					what string
+					at   ssa.Instruction
+				}
+				n := 0
+				for _, fn := range c.P.Funcs("internal/store") {
+					if r.FamilyOfFunc(fn) != fam {
+						continue
+					}
+					if fn.Name() == "gc" || (fn.Parent() != nil && fn.Parent().Name() == "gc") {
+						continue // the collector itself
+					}
+					var ops []op
+					an.Instrs(fn, func(in ssa.Instruction) {
+						switch x := in.(type) {
+						case *ssa.MapUpdate:
+							// a blob entered into the repository's blob map
+							// (only the commit of an upload session counts: the memory store also fills the map with
+							// blobs it loads lazily from its backing directory, which adds nothing to the repository)
+							root, p := accessPath(an.Strip(x.Map))
+							inUpload := fn.Signature.Recv() != nil && an.NamedOf(an.Deref(fn.Signature.Recv().Type())) == fam.Upload
+							if inUpload && len(p) >= 1 && root != nil && an.NamedOf(an.Deref(fieldOwnerType(x.Map))) == fam.Repo {
+								if _, isDigest := x.Map.Type().Underlying().(*types.Map); isDigest && strings.HasSuffix(x.Map.Type().Underlying().(*types.Map).Key().String(), "go-digest.Digest") {
+									ops = append(ops, op{"adds a blob to the repository", in})
+								}
+							}
+						case ssa.CallInstruction:
+							if _, isDefer := x.(*ssa.Defer); isDefer {
+								return
+							}
+							if an.IsMethod(x, r.TypesPath, "Index", "AddDesc") || an.IsMethod(x, r.TypesPath, "Index", "RmDesc") {
+								recv, _ := an.CallArgs(x)
+								if fa, ok := an.Strip(recv).(*ssa.FieldAddr); ok && an.NamedOf(an.Deref(fa.X.Type())) == fam.Repo {
+									ops = append(ops, op{"changes the repository's index", in})
+								}
+							}
+							if an.IsFunc(x, "os", "Rename") && fn.Signature.Recv() != nil && an.NamedOf(an.Deref(fn.Signature.Recv().Type())) == fam.Upload {
+								ops = append(ops, op{"commits an uploaded blob", in})
+							}
+						}
+					})
+					for i, o := range ops {
+						n++
+						key := fmt.Sprintf("stamp:%s#%d", kn(c.P.FuncName(fn)), i+1)
+						ok := stamps(fn, 0, map[*ssa.Function]bool{})
+						c.Check(ok, key, o.at.Pos(), "%s %s at %s and refreshes the repository's %s (directly or through what it calls): %v — the store-wide pass skips repositories whose %s is old, so garbage created here would never be collected if nothing else touches the repository", c.P.FuncName(fn), o.what, c.P.Pos(o.at.Pos()), stampField, ok, stampField)
+					}
+				}
+				if n == 0 {
+					c.Unresolved("ops:"+fam.Name, "no content-changing operation found in the %s store", fam.Name)
+				}
+			}
+		}})
+}
+
+// fieldOwnerType: for a value loaded from x.f returns the type of x.
+func fieldOwnerType(v ssa.Value) types.Type {
+	v = an.Strip(v)
+	if u, ok := v.(*ssa.UnOp); ok {
+		v = u.X
+	}
+	if fa, ok := v.(*ssa.FieldAddr); ok {
+		return fa.X.Type()
+	}
+	return types.Typ[types.Invalid]
+}
+
+func init() {
+	register(&Rule{ID: "TS-COMMIT-FRESH", Floor: 2,
+		Doc: "the commit of an upload session gives the blob the age of the upload: the operation that enters the blob into the repository (store into the blob map / rename of the temporary file onto the blob's name) is not skipped on an existence test of its own target unless that path refreshes the existing blob's modification time — the grace period of the collector is judged from that time, so a blob uploaded moments ago must never keep the age of an older copy",
+		Run: func(c *core.Ctx) {
+			r := requireRoles(c)
+			if r == nil {
+				return
+			}
+			for _, fam := range r.Families {
+				fn := methodOfNamed(c, fam.Upload, "Close")
+				key := "commit:" + fam.Upload.Obj().Name()
+				if fn == nil {
+					c.Unresolved(key, "Close of %s not found", fam.Upload.Obj().Name())
+					continue
+				}
+				// the commit operation and its target
+				var commit ssa.Instruction
+				var target ssa.Value // map (memory) or destination path (directory)
+				var tkey ssa.Value   // map key
+				an.Instrs(fn, func(in ssa.Instruction) {
+					switch x := in.(type) {
+					case *ssa.MapUpdate:
+						if an.NamedOf(an.Deref(fieldOwnerType(x.Map))) == fam.Repo {
+							commit, target, tkey = in, x.Map, x.Key
+						}
+					case ssa.CallInstruction:
+						if _, isDefer := x.(*ssa.Defer); !isDefer && an.IsFunc(x, "os", "Rename") {
+							commit, target = in, x.Common().Args[1]
+						}
+					}
+				})
+				if commit == nil {
+					c.Fail(key, fn.Pos(), "%s neither stores the blob into the repository's blob map nor renames the temporary file onto the blob's name: a completed upload does not become a blob", c.P.FuncName(fn))
+					continue
+				}
+				samePath := func(a, b ssa.Value) bool {
+					ra, pa := accessPath(an.Strip(a))
+					rb, pb := accessPath(an.Strip(b))
+					return an.Origin(a) == an.Origin(b) || (ra == rb && len(pa) > 0 && strings.Join(pa, ".") == strings.Join(pb, "."))
+				}
+				// existence tests of the target: conditions derived from a lookup in the same map / a Stat, Lstat or Open of the same path
+				var derives func(v ssa.Value, d int) bool
+				derives = func(v ssa.Value, d int) bool {
+					if v == nil || d > 6 {
+						return false
+					}
+					switch x := an.Strip(v).(type) {
+					case *ssa.Lookup:
+						return tkey != nil && samePath(x.X, target)
+					case *ssa.Extract:
+						return derives(x.Tuple, d+1)
+					case *ssa.Call:
+						if an.IsFunc(x, "os", "Stat") || an.IsFunc(x, "os", "Lstat") || an.IsFunc(x, "os", "Open") {
+							return tkey == nil && an.Origin(x.Call.Args[0]) == an.Origin(target)
+						}
+					case *ssa.BinOp:
+						return derives(x.X, d+1) || derives(x.Y, d+1)
+					case *ssa.UnOp:
+						return derives(x.X, d+1)
+					case *ssa.Phi:
+						for _, e := range x.Edges {
+							if derives(e, d+1) {
+								return true
+							}
+						}
+					}
+					return false
+				}
+				refreshes := func(b *ssa.BasicBlock) bool {
+					for _, in := range b.Instrs {
+						if in == commit {
+							return true
+						}
+						switch x := in.(type) {
+						case *ssa.Store:
+							if fa, ok := x.Addr.(*ssa.FieldAddr); ok && isTimeType(an.Deref(fa.Type())) && an.NamedOf(an.Deref(fa.X.Type())) != fam.Repo {
+								return true // the modification time of a blob's metadata
+							}
+						case ssa.CallInstruction:
+							if an.IsFunc(x, "os", "Chtimes") {
+								return true
+							}
+						}
+					}
+					return false
+				}
+				var definiteErr func(v ssa.Value, d int) bool
+				definiteErr = func(v ssa.Value, d int) bool {
+					if v == nil || d > 4 {
+						return false
+					}
+					switch x := an.Strip(v).(type) {
+					case *ssa.Call:
+						if an.IsFunc(x, "fmt", "Errorf") || an.IsFunc(x, "errors", "New") {
+							return true
+						}
+						if an.IsFunc(x, "errors", "Join") {
+							if elems, ok := variadicElems(x.Call.Args[0]); ok {
+								for _, e := range elems {
+									if definiteErr(e, d+1) {
+										return true
+									}
+								}
+							}
+						}
+					case *ssa.UnOp:
+						if g, ok := x.X.(*ssa.Global); ok && an.IsErrorType(an.Deref(g.Type())) {
+							return true
+						}
+					case *ssa.MakeInterface:
+						return definiteErr(x.X, d+1)
+					}
+					return false
+				}
+				bad := ""
+				for _, b := range fn.Blocks {
+					ifi := an.BlockIf(b)
+					if ifi == nil || !derives(ifi.Cond, 0) {
+						continue
+					}
+					for _, s := range b.Succs {
+						seen := map[*ssa.BasicBlock]bool{}
+						var walk func(x *ssa.BasicBlock) bool
+						walk = func(x *ssa.BasicBlock) bool {
+							if seen[x] {
+								return false
+							}
+							seen[x] = true
+							if refreshes(x) {
+								return false
+							}
+							if len(x.Instrs) > 0 {
+								if ret, ok := x.Instrs[len(x.Instrs)-1].(*ssa.Return); ok {
+									if len(ret.Results) > 0 && definiteErr(ret.Results[len(ret.Results)-1], 0) {
+										return false
+									}
+									return true
+								}
+							}
+							for _, y := range x.Succs {
+								if walk(y) {
+									return true
+								}
+							}
+							return false
+						}
+						if walk(s) && bad == "" {
+							bad = c.P.Pos(ifi.Cond.Pos())
+						}
+					}
+				}
+				c.Check(bad == "", key, commit.Pos(), "%s enters the blob into the repository at %s on every path that can acknowledge the upload, or refreshes the existing blob's time (a path decided by an existence test of the target at %s skips both): %v — otherwise a blob uploaded moments ago keeps the age of an older copy and the collector removes it inside the grace period", c.P.FuncName(fn), c.P.Pos(commit.Pos()), bad, bad == "")
+			}
+		}})
+}
+
+func methodOfNamed(c *core.Ctx, n *types.Named, name string) *ssa.Function {
+	for _, t := range []types.Type{types.NewPointer(n), n} {
+		ms := c.P.SSA.MethodSets.MethodSet(t)
+		for i := 0; i < ms.Len(); i++ {
+			if ms.At(i).Obj().Name() == name {
+				if fn := c.P.SSA.MethodValue(ms.At(i)); fn != nil && len(fn.Blocks) > 0 {
+					return fn
+				}
+			}
+		}
+	}
+	return nil
+}
+
+func init() {
+	register(&Rule{ID: "TS-PRUNE-TRIGGER", Floor: 1,
+		Doc: "an insertion beyond the count limit starts the count pruner: in the cache's insert function the start of the pruner (go statement or call of a cache method that deletes entries) depends only on the count comparison (limit fields and len(entries)); a further condition on a boolean ‘pruner busy’ field is accepted only if the pruner clears that field on every path to each of its returns (or in a deferred function) — a flag left set by an early return disables count pruning for good",
+		Run: func(c *core.Ctx) {
+			fieldName := func(v ssa.Value) (string, bool) {
+				_, p := accessPath(an.Strip(v))
+				if len(p) == 1 {
+					return p[0], true
+				}
+				return "", false
+			}
+			type verdict struct {
+				bad string
+				pos token.Pos
+				n   int
+			}
+			res := map[string]*verdict{}
+			for _, fn := range c.P.Funcs("internal/cache") {
+				if fn.TypeParams().Len() > 0 && len(fn.TypeArgs()) == 0 {
+					continue
+				}
+				inserts := false
+				an.Instrs(fn, func(in ssa.Instruction) {
+					if mu, ok := in.(*ssa.MapUpdate); ok {
+						if f, ok := fieldName(mu.Map); ok && f == "entries" {
+							inserts = true
+						}
+					}
+				})
+				if !inserts {
+					continue
+				}
+				for _, b := range fn.Blocks {
+					for _, in := range b.Instrs {
+						var callee *ssa.Function
+						switch x := in.(type) {
+						case *ssa.Go:
+							callee = x.Call.StaticCallee()
+							if callee == nil {
+								if mc, ok := x.Call.Value.(*ssa.MakeClosure); ok {
+									callee, _ = mc.Fn.(*ssa.Function)
+								}
+							}
+						}
+						if callee == nil {
+							continue
+						}
+						// the pruner deletes entries
+						deletes := false
+						an.Calls(callee, func(call ssa.CallInstruction) {
+							if bi, ok := call.Common().Value.(*ssa.Builtin); ok && bi.Name() == "delete" {
+								deletes = true
+							}
+						})
+						if !deletes {
+							continue
+						}
+						name := c.P.FuncName(fn)
+						if fn.Origin() != nil {
+							name = c.P.FuncName(fn.Origin())
+						}
+						key := "trigger:" + kn(name)
+						v := res[key]
+						if v == nil {
+							v = &verdict{pos: in.Pos()}
+							res[key] = v
+						}
+						v.n++
+						for _, g := range an.GuardingEdges(b) {
+							cond := g.If().Cond
+							base, _ := an.CondBase(cond)
+							// count comparison: operands are limit fields, len(entries) or constants
+							okCount := false
+							if bo, ok := base.(*ssa.BinOp); ok {
+								okCount = true
+								for _, o := range []ssa.Value{bo.X, bo.Y} {
+									if _, isC := an.Strip(o).(*ssa.Const); isC {
+										continue
+									}
+									if l := lenOf(o); l != nil {
+										if f, ok := fieldName(l); ok && f == "entries" {
+											continue
+										}
+									}
+									if f, ok := fieldName(o); ok && (strings.Contains(strings.ToLower(f), "count") || strings.Contains(strings.ToLower(f), "max") || strings.Contains(strings.ToLower(f), "min")) {
+										continue
+									}
+									okCount = false
+								}
+								// the receiver nil test at the top of the function
+								if x, _, isNil := an.NilTest(g.If()); isNil && x == ssa.Value(fn.Params[0]) {
+									okCount = true
+								}
+							}
+							if okCount {
+								continue
+							}
+							// a busy flag: boolean field of the cache
+							if f, ok := fieldName(base); ok {
+								if bt, isB := base.Type().Underlying().(*types.Basic); isB && bt.Kind() == types.Bool {
+									if why := busyFlagLeak(c, callee, f); why != "" {
+										v.bad = fmt.Sprintf("the start of the count pruner in %s depends on the flag %s, and %s", name, f, why)
+									}
+									continue
+								}
+							}
+							v.bad = fmt.Sprintf("the start of the count pruner in %s at %s depends on a condition (%s) other than the count comparison", name, c.P.Pos(in.Pos()), c.P.Pos(cond.Pos()))
+						}
+					}
+				}
+			}
+			var keys []string
+			for k := range res {
+				keys = append(keys, k)
+			}
+			sort.Strings(keys)
+			for _, k := range keys {
+				if res[k].bad != "" {
+					c.Fail(k, res[k].pos, "%s: an insertion beyond the limit is then not followed by pruning", res[k].bad)
+				} else {
+					c.Pass(k, res[k].pos, "the count pruner is started on the count comparison alone (%d instantiation(s))", res[k].n)
+				}
+			}
+			if len(res) == 0 {
+				c.Unresolved("trigger", "no insert function that starts a count pruner found in the cache package")
+			}
+		}})
+}
+
+// busyFlagLeak: the worker must store false to the flag field on every path to every return, or in a deferred closure.
+func busyFlagLeak(c *core.Ctx, worker *ssa.Function, flag string) string {
+	clears := func(in ssa.Instruction) bool {
+		st, ok := in.(*ssa.Store)
+		if !ok {
+			return false
+		}
+		fa, ok := st.Addr.(*ssa.FieldAddr)
+		if !ok {
+			return false
+		}
+		if an.Deref(fa.X.Type()).Underlying().(*types.Struct).Field(fa.Field).Name() != flag {
+			return false
+		}
+		bv, isC := an.ConstBool(st.Val)
+		return isC && !bv
+	}
+	// deferred closure that clears it
+	deferred := false
+	an.Instrs(worker, func(in ssa.Instruction) {
+		if d, ok := in.(*ssa.Defer); ok {
+			if mc, ok := d.Call.Value.(*ssa.MakeClosure); ok {
+				if cf, ok := mc.Fn.(*ssa.Function); ok {
+					an.Instrs(cf, func(i2 ssa.Instruction) {
+						if clears(i2) {
+							deferred = true
+						}
+					})
+				}
+			}
+		}
+	})
+	if deferred {
+		return ""
+	}
+	leak := ""
+	an.Paths(an.PathSpec[bool]{Fn: worker, Init: false,
+		Instr: func(s bool, in ssa.Instruction) []bool {
+			if clears(in) {
+				return []bool{true}
+			}
+			if ret, ok := in.(*ssa.Return); ok && !s && leak == "" {
+				leak = fmt.Sprintf("%s returns at %s without clearing it", c.P.FuncName(worker), c.P.Pos(ret.Pos()))
+			}
+			return []bool{s}
+		}})
+	return leak
+}
